@@ -5,8 +5,8 @@ set -u
 src=$1; id=$2; prop=$3; tests=$4; needs=$5; shift 5
 wt=$(mktemp -d /tmp/seedwt-XXXXXX)
 git -C /repo worktree add -q --detach "$wt" HEAD || exit 3
-cp /verif/.build/compiled-*/_npc_helper*.so "$wt/tenpy/linalg/" 2>/dev/null
-so=$(ls -t /verif/.build/compiled-*/_npc_helper*.so | head -1); cp "$so" "$wt/tenpy/linalg/"
+# extension of the unchanged tree (the build cache also holds extensions built from patched sources during drills)
+cp /repo/tenpy/linalg/_npc_helper*.so "$wt/tenpy/linalg/"
 cd "$wt"
 /venv/bin/python "$src/demo.py" > /tmp/seed_clean.log 2>&1; rc_clean=$?
 if ! git apply "$src/patch.diff"; then echo "PATCH DOES NOT APPLY on current HEAD"; cd /; git -C /repo worktree remove --force "$wt"; exit 3; fi
